@@ -53,7 +53,7 @@ MANIFEST = {
         "design_ref": "DESIGN.md 3/C20",
     }
 }
-PROPS = ["Nstd.Args.Props", "Nstd.Args.PropsWait", "Nstd.Args.PropsRun"]
+PROPS = ["Nstd.Args.Props", "Nstd.Args.PropsWait", "Nstd.Args.PropsRun", "Nstd.Args.PropsRead", "Nstd.Args.PropsFds"]
 LEAN_TARGETS = PROPS + ["drv_args"]
 DRIVER = "drv_args"
 SOURCES = ["args.cpp", C.REPO / "src/String.cpp", C.REPO / "src/Memory.cpp", C.REPO / "src/Debug.cpp",
@@ -262,6 +262,35 @@ class WaitRef:
         return "bad-op"
 
 
+# ---- independent reference 4: Process::read(buffer, length, streams) at the level of the property ---------------------
+def ref_sel(t):
+    """both streams are redirected and open; a stream is readable when it holds data or its writer is gone; stdout is served
+    before stderr; the call delivers min(length, queued) bytes, 0 = end-of-file, and names the stream; EINVAL when no
+    requested stream is open; time-outs and EINTRs of select are invisible"""
+    q = {1: int(t[1]), 2: int(t[2])}
+    hold = t[3] != "0"
+    out = "sel ok=1"
+    for tok in t[5:]:
+        ln, st, _ = tok.split(".")
+        ln, st = int(ln), int(st)
+        req = [b for b in (1, 2) if st & b]
+        if not req:
+            out += " r=einval"
+            continue
+        ready = [b for b in req if q[b] > 0 or not hold]
+        if not ready:
+            return out + " BLOCK"
+        b = ready[0]
+        n = min(ln, q[b])
+        q[b] -= n
+        out += f" r={n}/{b}/{'-' if n == 0 else 'oe'[b - 1]}"
+    return out + " | done=1 after=0"
+
+
+def sel_blocks(t):
+    return ref_sel(t).endswith("BLOCK")
+
+
 # ---- independent reference 2: the documented quoting rules of the command-line form --------------------------
 def ref_split(s):
     """words are separated by single blanks (every blank ends a word, also an empty one; a trailing empty word is
@@ -367,6 +396,17 @@ def ref_line(line, penv=None):
                 f"err={f'{n}:{pattern_crc(n, seed + 1):08x}' if m & 2 else z}")
     if op == "exit":
         return f"exit ok=1 | running=1 joined=1 code={int(t[1])} after=0"
+    if op == "sel":
+        return ref_sel(t)
+    if op == "joinfail":                      # waitpid fails k times: false each time, stdin end closed, pid and read ends kept; then the code
+        m, k, code = int(t[1]) & 7, min(int(t[2]), 7), int(t[3])
+        return "jf ok=1" + f" j=0/1{m & 1}{(m >> 1) & 1}0" * k + f" j=1/0000/{code}"
+    if op == "startfail":                     # vfork fails (EAGAIN): 0, the object stays idle
+        return "sf pid=0 st=0000 | eagain=1"
+    if op == "dmn":                           # daemonize: stdout and stderr go to the log file, nothing else changes; the caller exits 0
+        if t[1] == "ok":
+            return "dmn ret=1 fd0=same fd1=log fd2=log fd3=closed | sid=1 inparent=0 astatus=0"
+        return "dmn ret=0 fd0=same fd1=same fd2=same fd3=closed | sid=0 inparent=1 astatus=7"
     if op == "pexit":                         # Process::exit(code) ends the calling process with that status
         return f"pexit ok=1 code={int(t[1]) & 255}"
     if op == "ids":
@@ -782,6 +822,34 @@ def wait_histories(rng, quick):
     return [h + ["w new", "fds"] for h in hs]
 
 
+SEL_SCRIPTS = ["", "", "I", "T", "IT", "TTI", "TIT", "IIII"]
+
+
+def sel_lines(rng, quick):
+    """the three-argument read: queued data x end-of-file x descriptor order x request masks x select scripts; calls that would
+    block are cut off"""
+    ls = []
+    for nout in (0, 3):
+        for nerr in (0, 2):
+            for hold in (0, 1):
+                for swap in (0, 1):
+                    for _ in range(6 if quick else 40):
+                        reads = []
+                        for _ in range(rng.choice([1, 2, 3, 4, 6])):
+                            tok = f"{rng.choice([1, 2, 8, 8])}.{rng.choice([0, 1, 2, 3, 3, 3, 7, 4])}.{rng.choice(SEL_SCRIPTS)}"
+                            if sel_blocks(["sel", str(nout), str(nerr), str(hold), str(swap)] + reads + [tok]):
+                                break
+                            reads.append(tok)
+                        ls.append(f"sel {nout} {nerr} {hold} {swap}" + "".join(" " + r for r in reads))
+    ls += [f"sel 60000 60000 {h} {sw} 60000.3.T 1.3.I 60000.3.TI" + (" 60000.3." if not h else "") for h in (0, 1) for sw in (0, 1)]
+    return ls
+
+
+def fail_lines(rng, quick):
+    ls = [f"joinfail {m} {k} {rng.choice([0, 3, 200])}" for m in range(8) for k in ((0, 1, 3) if quick else (0, 1, 2, 3, 7))]
+    return ls + ["startfail cmd", "startfail argv", "dmn ok", "dmn nofile"]
+
+
 def misc_lines(rng, quick):
     ls = [f"pexit {c}" for c in ([0, 1, 7, 42, 255, 256, 300] if quick else range(0, 300, 7))] + ["ids", "args0"]
     ls += [f"io2 {n} {rng.randrange(250)} {rng.choice([0, 3, 77])}" for n in ([0, 1, 4096, 65536, 200000] if quick else [0, 1, 4095, 4096, 4097, 65536, 65537, 200000, 1 << 20])]
@@ -876,7 +944,8 @@ def histories_for(ctx):
     wh = wait_histories(rng, quick)
     ea2 = exhaustive_args2(3 if quick else 4)
     ml = misc_lines(rng, quick)
-    hs = corpus + ph + eh + wh + chunks(ea2, 40) + [c + ["fds"] for c in chunks(ml, 4)] + chunks(ea, 40) + chunks(ra, 40) + chunks(es + es2, 40) + chunks(rs, 40) + [c + ["fds"] for c in chunks(rl, 8) + chunks(il, 3) + chunks(xl, 8) + chunks(execfail_lines(), 6)]
+    sl, fl = sel_lines(rng, quick), fail_lines(rng, quick)
+    hs = corpus + ph + eh + wh + chunks(ea2, 40) + [c + ["fds"] for c in chunks(ml, 4) + chunks(sl, 6) + chunks(fl, 5)] + chunks(ea, 40) + chunks(ra, 40) + chunks(es + es2, 40) + chunks(rs, 40) + [c + ["fds"] for c in chunks(rl, 8) + chunks(il, 3) + chunks(xl, 8) + chunks(execfail_lines(), 6)]
     # the histories with waiting children are spread over the list so that they land in different parallel chunks
     step = max(1, len(hs) // (len(lh) + 1))
     for i, h in enumerate(lh):
